@@ -30,7 +30,7 @@ def killProcess (rec : Rec) (wuid pid : Nat) (sig : Option Nat) (gt : Option Nat
   let o ← getO pid
   let sig := sig.getD w.stopSignal
   let gt := gt.getD w.graceful
-  if o.stopping then deliver rec wt (.bool false) else
+  if o.stopping then awaitSleep 100 (.killWaitOther pid) wt else      -- wait for the kill that is in flight
   let ok ← if w.stopChildren then do sendSignalProcess wuid pid sig false; pure true
            else do
              let r ← sendSignal wuid pid sig
@@ -84,8 +84,11 @@ def spawnTry (rec : Rec) (wuid : Nat) : Nat → M SpawnRes
         modW wuid fun w => { w with pids := w.pids ++ [pid] }
         let r ← callHook wuid "after_spawn"
         if !r then
-          rec (.call (.killProcess wuid pid none none) .none)      -- called without yield: detached
-          popPid wuid pid
+          -- called without yield: detached; the worker stays registered until the kill is done
+          let tid ← freshId
+          modS fun s => { s with tops := s.tops ++ [{ tid := tid, cbs := [.popProc wuid pid] }] }
+          rec (.call (.killProcess wuid pid none none) (.top tid))
+          modS fun s => { s with tops := s.tops.map fun t => if t.tid = tid then { t with armed := true } else t }
           pure .rFalse
         else
           notify wuid "spawn" (some pid)
@@ -152,7 +155,7 @@ def manageTail (rec : Rec) (wuid : Nat) (wt : Waiter) : M Unit := do
     let mut toKill := []
     for o in extra do
       let st ← procStatus o.pid
-      if isDead st then popPid wuid o.pid else toKill := toKill ++ [o.pid]
+      if isDead st then reapProcess wuid o.pid none else toKill := toKill ++ [o.pid]
     awaitMulti rec (toKill.map fun p => .killProcess wuid p none none) (.manageAfterKill wuid toKill) wt
   else deliver rec wt .unit
 
@@ -179,7 +182,7 @@ def manageProcesses (rec : Rec) (wuid : Nat) (wt : Waiter) : M Unit := do
   if w.status = .stopped then deliver rec wt .unit else
   for pid in w.pids do
     let st ← procStatus pid
-    if isDead st then popPid wuid pid
+    if isDead st then reapProcess wuid pid none
   if w.maxAge > 0 then await rec (.removeExpired wuid) (.manageAfterExpire wuid []) wt
   else manageAfterExpire rec wuid wt
 
@@ -287,8 +290,8 @@ def arbStartAfterStart (_rec : Rec) (rest : List Nat) (wt : Waiter) : M Unit := 
   awaitSleep a.warmup (.arbStartAfterSleep rest) wt
 
 def arbStopTail (rec : Rec) (wt : Waiter) : M Unit := do
-  -- loop.add_callback(stop_controller_and_close_sockets): runs before the future's own callbacks
-  modA fun a => { a with closePending := true }
+  -- loop.add_callback(stop_controller_and_close_sockets): queued before the future's own callbacks
+  enqueue .closeCtl
   deliver rec wt .unit
 
 def arbStop (rec : Rec) (wt : Waiter) : M Unit := do
@@ -369,8 +372,12 @@ def runResume (rec : Rec) (k : Kont) (v : Val) (wt : Waiter) : M Unit :=
   match k, v with
   | .pass, v => deliver rec wt v
   | .multi _ _, v => deliver rec wt v          -- not reached: multi frames are handled by `deliver`
+  | .multiSlot fid slot, v => multiCollect rec fid slot v
   | _, .exc e => deliver rec wt (.exc e)       -- an exception propagates through every other frame
   | .killWait w p sig i polls, _ => killLoop rec w p sig i polls wt
+  | .killWaitOther p, _ => do
+      let o ← getO p
+      if o.stopping then awaitSleep 100 (.killWaitOther p) wt else deliver rec wt (.bool false)
   | .stopAfterKill w close, _ => stopAfterKill rec w close wt
   | .spawnLoop w rem, _ => spawnLoop rec w rem wt
   | .spawnAfterStop, _ => deliver rec wt .unit
@@ -394,6 +401,12 @@ def runResume (rec : Rec) (k : Kont) (v : Val) (wt : Waiter) : M Unit :=
   | .quitAfterStop, _ => arbStopTail rec wt
   | .ignore, _ => deliver rec wt .unit
 
+/-- one entry of the ready queue -/
+def runReady1 (rec : Rec) : Ready → M Unit
+  | .resume k v w => rec (.resume k v w)
+  | .topCb cb v => runTopCb v cb
+  | .closeCtl => stopController
+
 /-- the interpreter: `fuel` bounds the number of nested task activations -/
 def exec : Nat → Task → M Unit
   | 0, _ => emit .outOfFuel
@@ -402,5 +415,21 @@ def exec : Nat → Task → M Unit
     match t with
     | .call c w => runCall (exec fuel) c w s
     | .resume k v w => runResume (exec fuel) k v w s
+
+end Circus.Core
+
+namespace Circus.Core
+
+/-- run the event loop until its ready queue is empty (`settle`) -/
+def settle : Nat → M Unit
+  | 0 => emit .outOfFuel
+  | fuel + 1 => fun s =>
+    if s.blocked then ((), s) else
+    match s.ready with
+    | [] => ((), s)
+    | r :: rest =>
+      let s1 := { s with ready := rest }
+      let (_, s2) := runReady1 (exec 100000) r s1
+      settle fuel s2
 
 end Circus.Core
